@@ -517,11 +517,29 @@ def _lines(out):
     return [p[:-1] if p.endswith("\r") else p for p in parts]
 
 
+_PRLIMIT_OK = None
+
+
+def _model_prefix(binary):
+    """The extracted mirrors recurse over lists; an extracted MODEL driver (never a harness binary of
+    the implementation) runs with an unlimited stack so that a large input is judged, not `died`."""
+    if not os.path.basename(binary).startswith("model_"):
+        return []
+    global _PRLIMIT_OK
+    if _PRLIMIT_OK is None:
+        try:
+            _PRLIMIT_OK = subprocess.run(["/usr/bin/prlimit", "--stack=unlimited", "/bin/true"],
+                                         stdout=subprocess.DEVNULL, stderr=subprocess.DEVNULL, timeout=10).returncode == 0
+        except Exception:
+            _PRLIMIT_OK = False
+    return ["/usr/bin/prlimit", "--stack=unlimited"] if _PRLIMIT_OK else []
+
+
 def run_lines(binary, args, lines, timeout=900, shards=1):
     """Feeds lines to `binary args` (optionally sharded over processes) and
     returns the output lines in order."""
     if shards <= 1 or len(lines) < 2 * shards:
-        rc, out, err = sh([binary] + args, inp="\n".join(lines) + "\n", timeout=timeout)
+        rc, out, err = sh(_model_prefix(binary) + [binary] + args, inp="\n".join(lines) + "\n", timeout=timeout)
         if rc != 0:
             raise BuildError("%s %s failed rc=%d" % (os.path.basename(binary), " ".join(args), rc), err[-2000:])
         return _lines(out)
@@ -531,7 +549,7 @@ def run_lines(binary, args, lines, timeout=900, shards=1):
     chunks = [lines[i:i + size] for i in range(0, n, size)]
 
     def one(ch):
-        rc, out, err = sh([binary] + args, inp="\n".join(ch) + "\n", timeout=timeout)
+        rc, out, err = sh(_model_prefix(binary) + [binary] + args, inp="\n".join(ch) + "\n", timeout=timeout)
         if rc != 0:
             raise BuildError("%s %s failed rc=%d" % (os.path.basename(binary), " ".join(args), rc), err[-2000:])
         return _lines(out)
